@@ -76,6 +76,7 @@ def gen(tape: Tape, tier: str) -> dict:
             by_dask_any_method=True,
             expected_modes=("none", "none", "exact", "superset"),
             sort_choices=(True, True, False),
+            block_missing_p=0.25,
             max_ndim=2,
         )
         if r < 4 and len(case["by"][0]["shape"]) == 1:
